@@ -5,6 +5,6 @@ set -e
 cd "$(dirname "$0")"
 python3-vt -c "import z3, sys; print('z3', z3.get_version_string())"
 cargo +nightly --version
-cargo kani --version | head -1
+cargo kani --version >/dev/null && echo kani-ok
 python3-vt -m py_compile mirsym/*.py props/*.py spec/*.py vlib.py
 echo setup-ok
